@@ -9,6 +9,7 @@ CONSTANTS
   Usages = {"client", "server"}
   ChainLens = {0, 1, 2}
   Holds = {TRUE, FALSE}
+  OnchainCNs = {"X", "Y"}
   RegStates = {"valid", "revoked"}
   RegKeys = {"k1", "k2"}
   RegWindows = {"ok", "expired", "notYet"}
@@ -18,7 +19,10 @@ CONSTANTS
   DTokens = {"own", "other", "alpha", "overflow"}
   GTokens = {"own", "other", "alpha"}
   OTokens = {"own", "overflow"}
-  Extras = {"none", "spoof"}
+  Extras = {"none", "spoof", "badparams"}
+  Tickets = TRUE
+  Changes = {"none", "revoke"}
+  Presents = {"same", "nocert"}
 INIT Init
 NEXT Next
-INVARIANTS AuthSound VpcSound ScopeSound Complete
+INVARIANTS AuthSound VpcSound ScopeSound Complete ResumeSound ResumeScope
